@@ -41,3 +41,65 @@ Theorem c06_table_width_le : forall fuel width mins ws0 ws_,
   sumN ws_ + (N.of_nat (length (filter (fun w => 0 <? w) ws_)) - 1) <= width.
 Proof. exact TableProof.table_width_le. Qed.
 Print Assumptions c06_table_width_le.
+
+(* ---------- column allocation as used by render_node's table arm (Proofs/TableRender.v) ---------- *)
+From H2T Require Import Base Tagged Wrap Sub Css Dom Render Api CssParse Proofs.CssTotal Proofs.WrapInv Proofs.RenderWidth Proofs.Conserve Proofs.Footnotes Proofs.AnnBalance Proofs.RenderConserve Proofs.OptionRel Proofs.Compose Proofs.RenderTotal Proofs.FragStream Proofs.SimRel Proofs.Prune Proofs.TableRender.
+Theorem table_layout_fits :
+  forall (d : deco) (mw : N) (rows : list rrow) (ncols width : N) (raw : bool) (col_widths : list N),
+       table_layout d mw rows ncols width raw = Ok (false, col_widths) ->
+       sumN col_widths + (N.of_nat (length col_widths) - 1) <= width.
+Proof. exact TableRender.table_layout_fits. Qed.
+Print Assumptions table_layout_fits.
+
+Theorem table_layout_length :
+  forall (d : deco) (mw : N) (rows : list rrow) (ncols width : N) (raw vr : bool) (cws : list N),
+       table_layout d mw rows ncols width raw = Ok (vr, cws) -> N.of_nat (length cws) = ncols.
+Proof. exact TableRender.table_layout_length. Qed.
+Print Assumptions table_layout_length.
+
+Theorem c06_column_nonzero :
+  forall (d : deco) (mw : N) (rows : list rrow) (ncols width : N) (raw : bool) 
+         (col_sizes : list est) (col_widths : list N) (i : nat) (sz : est),
+       table_col_sizes d mw rows ncols = Ok col_sizes ->
+       table_layout d mw rows ncols width raw = Ok (false, col_widths) ->
+       nth_opt col_sizes i = Some sz ->
+       0 < e_min sz -> 0 < e_size sz -> exists w : N, nth_opt col_widths i = Some w /\ 0 < w.
+Proof. exact TableRender.c06_column_nonzero. Qed.
+Print Assumptions c06_column_nonzero.
+
+Theorem c06_text_column_positive :
+  forall (d : deco) (mw : N) (rows1 : list rrow) (cells1 : list rcell) (c : rcell) 
+         (cells2 : list rcell) (rsty : cstyle) (rows2 : list rrow) (ncols width : N) 
+         (raw : bool) (col_widths : list N) (ce : est) (k : nat),
+       let rows := rows1 ++ RRow (cells1 ++ c :: cells2) rsty :: rows2 in
+       let cspan := cell_colspan c in
+       let col0 := sumN (map cell_colspan cells1) in
+       table_layout d mw rows ncols width raw = Ok (false, col_widths) ->
+       est_kids d mw (cell_content c) = Ok ce ->
+       (N.to_nat col0 <= k < N.to_nat col0 + N.to_nat cspan)%nat ->
+       cspan <= e_size ce -> cspan <= e_min ce -> exists w : N, nth_opt col_widths k = Some w /\ 0 < w.
+Proof. exact TableRender.c06_text_column_positive. Qed.
+Print Assumptions c06_text_column_positive.
+
+Theorem col_line_sets_padded :
+  forall (t : tag) (cols : list subr) (sets : list (N * list rline)),
+       col_line_sets t cols = Ok sets ->
+       Forall2
+         (fun (c : subr) (p : N * list rline) =>
+          fst p = swidth_ c /\
+          (exists ls : list rline, sub_into_lines c = Ok ls /\ Forall2 (padded (swidth_ c)) ls (snd p))) cols
+         sets.
+Proof. exact TableRender.col_line_sets_padded. Qed.
+Print Assumptions col_line_sets_padded.
+
+Theorem cell_widths_bar_subset :
+  forall ws_ : list N,
+       Forall (fun w : N => 0 < w) ws_ ->
+       forall (cells : list rcell) (colno : N) (cws : list (option N)),
+       cell_widths false ws_ cells colno = Ok cws ->
+       forall x : N,
+       In x (TableProof.bar_positions (somes cws) (cell_offset ws_ (N.to_nat colno))) ->
+       In x (TableProof.bar_positions ws_ 0).
+Proof. exact TableRender.cell_widths_bar_subset. Qed.
+Print Assumptions cell_widths_bar_subset.
+
